@@ -188,7 +188,7 @@ def e1_part(tier, seed):
     from xh import gen
 
     hs = [(f"c01_{v}", gen.entry_guard_module(v), dict(family="entry guards", variant=v))
-          for v in ("kwonly_literal", "kwonly_dependent", "positional_mix")]
+          for v in ("kwonly_literal", "kwonly_dependent", "positional_mix", "nested_combinators")]
     code = xhrun.main(PID, tier, seed, hs, bounds=dict(values="int unbounded, str len <= 2"), rule="see symx part", mod=None)
     with open(os.path.join(runner.EVID, f"{PID}.json")) as fh:
         cov = json.load(fh)["coverage"]
